@@ -1,7 +1,7 @@
 ---------------------------- MODULE Export_Enum ----------------------------
 EXTENDS EnumSpec, Json, SequencesExt
 CONSTANTS ScenOut, MaxLen
-Rec(p) == [kind |-> p.kind, tr |-> p.tr, same |-> p.same, src |-> p.src, tgt |-> p.tgt, map |-> p.map, unknown |-> p.unknown, rootErr |-> p.rootErr, pos |-> p.pos, enumOn |-> p.enumOn, excl |-> IF "excl" \in DOMAIN p THEN p.excl ELSE "none",
+Rec(p) == [kind |-> p.kind, tr |-> p.tr, tr2 |-> T2(p), same |-> p.same, src |-> p.src, tgt |-> p.tgt, map |-> p.map, unknown |-> p.unknown, rootErr |-> p.rootErr, pos |-> p.pos, enumOn |-> p.enumOn, excl |-> IF "excl" \in DOMAIN p THEN p.excl ELSE "none",
            ok |-> EnumGenOK(p), inputs |-> Inputs]
 ASSUME ndJsonSerialize(ScenOut, SetToSeq({Rec(p) : p \in Progs(MaxLen)}))
 ASSUME PrintT(<<"exported", Cardinality(Progs(MaxLen))>>)
